@@ -26,6 +26,7 @@ import (
 type client interface {
 	Open(dir string) string // error class ("nil" = success)
 	Close() string
+	Work(what string) string // the holder uses its handle: "write" (Put, batch, empty batch, Sync) or "merge"
 	IsOpen() bool
 	Kill()
 }
@@ -61,6 +62,45 @@ func (c *inprocClient) Close() string {
 			}
 		}()
 		err = db.Close()
+	}()
+	return procErrClass(err)
+}
+
+// Work: the holder goes about its business between the Opens of the others (nothing it does may let go of the
+// directory): "write" = Put, a committed batch, a batch committed empty, Sync; "merge" = overwrite + Merge.
+func (c *inprocClient) Work(what string) string {
+	db := c.db
+	var err error
+	func() {
+		defer func() {
+			if r := recover(); r != nil {
+				err = fmt.Errorf("panic: %v", r)
+			}
+		}()
+		first := func(es ...error) error {
+			for _, e := range es {
+				if e != nil {
+					return e
+				}
+			}
+			return nil
+		}
+		switch what {
+		case "write":
+			e1 := db.Put([]byte("a"), []byte("w1"))
+			b := db.NewBatch(kv.BatchOptions{})
+			e2 := b.Put([]byte("b"), []byte("w2"))
+			e3 := b.Commit()
+			e4 := db.NewBatch(kv.BatchOptions{}).Commit()
+			e5 := db.Sync()
+			_, e6 := db.Get([]byte("a"))
+			err = first(e1, e2, e3, e4, e5, e6)
+		case "merge":
+			e1 := db.Put([]byte("a"), []byte("m1"))
+			e2 := db.Put([]byte("a"), []byte("m2"))
+			e3 := db.Merge()
+			err = first(e1, e2, e3)
+		}
 	}()
 	return procErrClass(err)
 }
@@ -129,7 +169,8 @@ func (c *childClient) Close() string {
 	c.open = false
 	return c.rpc("close")
 }
-func (c *childClient) IsOpen() bool { return c.open }
+func (c *childClient) Work(what string) string { return c.rpc("work " + what) }
+func (c *childClient) IsOpen() bool            { return c.open }
 func (c *childClient) Kill() {
 	if c.cmd.Process != nil {
 		c.cmd.Process.Kill()
@@ -140,6 +181,7 @@ func (c *childClient) Kill() {
 // procClientMain is the child-process side.
 func procClientMain() {
 	debug.SetGCPercent(-1) // a leaked lock descriptor must not be released by a finalizer at a random moment
+	sched.SetMode(sched.ModeSeq)
 	in := bufio.NewReader(os.Stdin)
 	c := &inprocClient{}
 	for {
@@ -160,6 +202,12 @@ func procClientMain() {
 			} else {
 				fmt.Println("not-open")
 			}
+		case "work":
+			if c.IsOpen() {
+				fmt.Println(c.Work(f[1]))
+			} else {
+				fmt.Println("not-open")
+			}
 		case "quit":
 			return
 		}
@@ -174,7 +222,7 @@ type procEvent struct {
 }
 
 func (e procEvent) String() string {
-	if e.K == "open" || e.K == "close" {
+	if e.K == "open" || e.K == "close" || e.K == "write" || e.K == "merge" {
 		return fmt.Sprintf("%s%d", e.K, e.C)
 	}
 	return e.K
@@ -209,13 +257,14 @@ func runProcSeq(clients []client, evs []procEvent, root string, res *TaskResult)
 		}
 	}
 	dataFile := filepath.Join(dir, "000000000.data")
-	orig, _ := os.ReadFile(dataFile)
+	var orig []byte
 	holder, corrupt := -1, false
 	var tr []string
 	for i, ev := range evs {
 		res.Transitions++
 		switch ev.K {
 		case "corrupt":
+			orig, _ = os.ReadFile(dataFile) // as the last holder left it
 			bad := append([]byte(nil), orig...)
 			bad[9] ^= 0x40 // inside the FIRST record (valid data follows: not a torn tail, Open must fail)
 			os.WriteFile(dataFile, bad, 0o644)
@@ -255,6 +304,12 @@ func runProcSeq(clients []client, evs []procEvent, root string, res *TaskResult)
 				}
 				holder = ev.C
 			}
+		case "write", "merge":
+			r := clients[ev.C].Work(ev.K)
+			tr = append(tr, fmt.Sprintf("%s%d=%s", ev.K, ev.C, r))
+			if r != "nil" {
+				return strings.Join(tr, " "), fmt.Sprintf("event %d %s: the holder's own calls failed: %s", i, ev, r)
+			}
 		case "close":
 			r := clients[ev.C].Close()
 			tr = append(tr, fmt.Sprintf("close%d=%s", ev.C, r))
@@ -276,6 +331,14 @@ func runProcSeq(clients []client, evs []procEvent, root string, res *TaskResult)
 // enumProcSeqs enumerates all event sequences of length depth that are meaningful for the model.
 func enumProcSeqs(nClients, depth int, visit func(evs []procEvent) bool) {
 	var evs []procEvent
+	merged := func() bool { // after a Merge the first data file is replaced at the next Open (and then read through the hint only)
+		for _, e := range evs {
+			if e.K == "merge" {
+				return true
+			}
+		}
+		return false
+	}
 	var rec func(holder int, corrupt bool, opened []bool) bool
 	rec = func(holder int, corrupt bool, opened []bool) bool {
 		if len(evs) == depth {
@@ -305,9 +368,20 @@ func enumProcSeqs(nClients, depth int, visit func(evs []procEvent) bool) {
 				if !ok {
 					return false
 				}
+				// the holder uses its handle (never as the last event: what matters is what the others see next)
+				if len(evs) < depth-1 {
+					for _, k := range []string{"write", "merge"} {
+						evs = append(evs, procEvent{k, c})
+						ok := rec(holder, corrupt, opened)
+						evs = evs[:len(evs)-1]
+						if !ok {
+							return false
+						}
+					}
+				}
 			}
 		}
-		if holder < 0 {
+		if holder < 0 && (corrupt || !merged()) {
 			k := "corrupt"
 			if corrupt {
 				k = "repair"
@@ -330,8 +404,7 @@ func c16ProcTask(nClients, depth int, children bool) func(res *TaskResult) {
 	return func(res *TaskResult) {
 		debug.SetGCPercent(-1)
 		defer debug.SetGCPercent(400)
-		beginExecution()
-		sched.SetMode(sched.ModeOff)
+		beginExecution() // ModeSeq: a call that would block for ever (a lock nobody will release) panics instead
 		mk := func(child bool) ([]client, error) {
 			var cs []client
 			for i := 0; i < nClients; i++ {
